@@ -117,6 +117,19 @@ def gen_terms(rng, names=None, max_terms=5, lit_p=0.25, missing_p=0.03):
     return terms
 
 
+def dedupe(terms):
+    """drop terms that repeat an earlier term up to literal scalings (the parser rejects those; list specifications that repeat a term
+    are a recorded C10 finding)"""
+    seen, out = set(), []
+    for t in terms:
+        key = tuple(sorted(x for x, m in t if m != "literal"))
+        if key in seen:
+            continue
+        seen.add(key)
+        out.append(t)
+    return out
+
+
 def terms_coq(terms):
     return clist(clist(f"Build_factor {cstr(x)} {'FLit' if m == 'literal' else 'FLookup'}" for x, m in t) for t in terms)
 
